@@ -83,6 +83,25 @@ def gen_graph(rng, stress):
     return g, counter[0]
 
 
+def layout_variant(rng, k):
+    """distinct numeric arrays in every memory layout: contiguous, Fortran, strided 1-D/2-D/3-D views, transposes, non-native byte order"""
+    base = np.arange(48.0).reshape(6, 8) + 100 * k
+    return rng.choice([
+        lambda: np.arange(4.0) + 10 * k,
+        lambda: base.copy(),
+        lambda: np.asfortranarray(base),
+        lambda: base[:, ::3],
+        lambda: base[::2, ::2],
+        lambda: base.T,
+        lambda: base[1:5, 2:7],
+        lambda: base.reshape(2, 3, 8)[:, ::2, ::4],
+        lambda: base.ravel()[::5],
+        lambda: base.astype(">f8")[::2],
+        lambda: np.broadcast_to(np.arange(3.0) + k, (4, 3)),
+        lambda: (np.arange(12) + k).reshape(3, 4).astype("int16")[:, 1:3],
+    ])()
+
+
 def positions(v, out=None, seen=None, depth=0):
     """mutable sub-objects in deterministic traversal order (every occurrence, not only the first)"""
     import scipy.sparse as sp
@@ -166,7 +185,7 @@ def run(ctx):
                 break
     # arrays referenced several times are stored once (exact count on a graph made only of arrays)
     for _ in range(ctx.budget(40, 1500)):
-        arrs = [np.arange(4.0) + 10 * k for k in range(ctx.rng.randint(1, 5))]
+        arrs = [layout_variant(ctx.rng, k) for k in range(ctx.rng.randint(1, 5))]
         g = [ctx.rng.choice(arrs) for _ in range(ctx.rng.randint(2, 12))]
         g = [g, {"again": list(g)}, tuple(g[:2])]
         r = valuecheck.cycle(g)
